@@ -431,7 +431,7 @@ func genPrecedence(repo string) (string, error) {
 		b.WriteString("  | " + o + "\n")
 	}
 	b.WriteString("  deriving DecidableEq, Repr\n\n")
-	b.WriteString("def Op.all : List Op := [" )
+	b.WriteString("def Op.all : List Op := [")
 	for i, o := range ops {
 		if i > 0 {
 			b.WriteString(", ")
